@@ -397,6 +397,9 @@ impl Engine for ArenaEngine {
                 Err(e) => vec![format!("ENGINE: {e}")],
             };
         }
+        if let Some(it) = item["chain_item"].as_str() {
+            return chain_table().into_iter().filter(|(k, _, _)| k == it).filter_map(|(_, _, m)| m).collect();
+        }
         if let Some(it) = item["ctor_leak_item"].as_str() {
             return ctor_leak_table().into_iter().filter(|(k, _, _)| k == it).filter_map(|(_, _, m)| m).collect();
         }
@@ -551,6 +554,77 @@ pub fn ctor_leak_table() -> Vec<(String, String, Option<String>)> {
     out
 }
 
+/// C03 long chunk chains: an allocator that refuses every request of 600 bytes or more (or a limit raised step by step)
+/// keeps all chunks at the minimum size, so an arena can hold far more chunks than doubling growth would ever produce.
+/// However many there are, drop gives every one back exactly once and reset all but one. Returns (item, description, violation).
+pub fn chain_table() -> Vec<(String, String, Option<String>)> {
+    use bumpalo::Bump;
+    use crate::ledger::{self, enter_arena, EvKind, Plan};
+    let mut out = vec![];
+    fn run<const M: usize>(n: usize, by_limit: bool, reset_first: bool) -> (String, String, Option<String>) {
+        let item = format!("chain M={M} n={n} by_limit={by_limit} reset_first={reset_first}");
+        ledger::begin_case(0xC03C);
+        if !by_limit {
+            ledger::set_plan(1, Plan::FailAtLeast(600));
+        }
+        let mut b = {
+            let _g = enter_arena(1);
+            Bump::<M>::with_min_align()
+        };
+        let l = std::alloc::Layout::from_size_align(400, 1).unwrap();
+        for _ in 0..n {
+            let _g = enter_arena(1);
+            if by_limit {
+                b.set_allocation_limit(Some(b.allocated_bytes() + 500));
+            }
+            let _ = b.try_alloc_layout(l);
+        }
+        let count = |live_only: bool| {
+            let mut blocks = vec![];
+            ledger::blocks(1, &mut blocks);
+            blocks.iter().filter(|x| !live_only || x.live).count()
+        };
+        let obtained = count(false);
+        let mut viol = None;
+        if reset_first {
+            {
+                let _g = enter_arena(1);
+                b.reset();
+            }
+            let held = count(true);
+            if held > 1 {
+                viol = Some(format!("{item}: the arena had obtained {obtained} chunks; after reset() it (or nobody) still holds {held} of them instead of at most one"));
+            }
+        }
+        {
+            let _g = enter_arena(1);
+            drop(b);
+        }
+        let held = count(true);
+        if held != 0 && viol.is_none() {
+            viol = Some(format!("{item}: the arena had obtained {obtained} chunks; after it was dropped {held} of them were never given back"));
+        }
+        let mut evs = vec![];
+        ledger::take_events(&mut evs);
+        if let Some(e) = evs.iter().find(|e| matches!(e.kind, EvKind::DoubleFree | EvKind::LayoutMismatch | EvKind::InteriorFree | EvKind::SentinelFree)) {
+            if viol.is_none() {
+                viol = Some(format!("{item}: {:?} while giving the chunks back", e.kind));
+            }
+        }
+        ledger::end_case();
+        (item.clone(), format!("{item}: {obtained} chunks obtained, {held} held at the end"), viol)
+    }
+    for &n in [3usize, 63, 64, 65, 66, 100, 129, 300, 1100].iter() {
+        for &by_limit in [false, true].iter() {
+            for &reset_first in [false, true].iter() {
+                out.push(run::<1>(n, by_limit, reset_first));
+                out.push(run::<16>(n, by_limit, reset_first));
+            }
+        }
+    }
+    out
+}
+
 pub fn ctor_leak_sweep(idx: u32) -> SweepOut {
     install_quiet_panic_hook();
     let mut out = SweepOut { exhaustive: true, ..Default::default() };
@@ -567,6 +641,18 @@ pub fn ctor_leak_sweep(idx: u32) -> SweepOut {
             }
         }
     }
+    let chains = chain_table();
+    for (item, _desc, viol) in chains.iter() {
+        out.evaluations += 1;
+        out.nontrivial += 1;
+        if let Some(m) = viol {
+            if out.viol.len() < 3 {
+                out.viol.push((m.clone(), json!({"chain_item": item})));
+            }
+        }
+    }
+    out.extra.insert("long_chunk_chain_entries".to_string(), json!(chains.len()));
+    out.extra.insert("long_chunk_chain_sample".to_string(), json!(chains.iter().filter(|t| t.0.contains("n=300") || t.0.contains("n=65 ")).take(6).map(|t| t.1.clone()).collect::<Vec<_>>()));
     out.extra.insert("constructor_leak_table_entries".to_string(), json!(table.len()));
     out.extra.insert("constructor_leak_table_sample".to_string(), json!(table.iter().filter(|t| t.0.contains("<32>") || t.0.contains("<8>")).take(8).map(|t| t.1.clone()).collect::<Vec<_>>()));
     out
